@@ -289,6 +289,23 @@ func (b *BreachArbitrator) start() error {
 		brarLog.Debugf("Handling breach handoff on startup "+
 			"for ChannelPoint(%v)", chanPoint)
 
+		// A retribution without any breached output has nothing to
+		// sweep and no script to watch. We drop it, the breach is then
+		// reported as complete to its subscribers.
+		if len(retInfo.breachedOutputs) == 0 {
+			brarLog.Warnf("Retribution for ChannelPoint(%v) has "+
+				"no outputs to sweep, removing it", chanPoint)
+
+			if err := b.cfg.Store.Remove(&chanPoint); err != nil {
+				brarLog.Errorf("Unable to remove empty "+
+					"retribution for ChannelPoint(%v): %v",
+					chanPoint, err)
+				return err
+			}
+
+			continue
+		}
+
 		// Register for a notification when the breach transaction is
 		// confirmed on chain.
 		breachTXID := retInfo.commitHash
@@ -1037,6 +1054,20 @@ func (b *BreachArbitrator) handleBreachHandoff(
 	// channel snapshot, construct the retribution information that
 	// will be persisted to disk.
 	retInfo := newRetributionInfo(&chanPoint, breachInfo)
+
+	// If every output of the revoked commitment is dust, there's nothing
+	// to sweep and no output script to watch. We ACK the handoff without
+	// persisting anything, so the breach counts as complete right away.
+	if len(retInfo.breachedOutputs) == 0 {
+		b.Unlock()
+
+		brarLog.Warnf("Revoked commitment %v of ChannelPoint(%v) has "+
+			"no outputs to sweep", retInfo.commitHash, chanPoint)
+
+		breachEvent.ProcessACK(nil)
+
+		return
+	}
 
 	// Persist the pending retribution state to disk.
 	err = b.cfg.Store.Add(retInfo)
